@@ -69,7 +69,9 @@ func c12Failing(r *rt.Rand, text bool) *gen.Node {
 }
 
 func c12KeyExpr(r *rt.Rand) *gen.Node {
-	switch r.Intn(7) {
+	switch r.Intn(8) {
+	case 7: // a list length (an integer like any other)
+		return gen.Call("len", gen.Call("split", gen.Str([]string{"a,b,c", "x", "1,2"}[r.Intn(3)]), gen.Str(",")))
 	case 0, 1:
 		return gen.Str(c12KeyPool[r.Intn(len(c12KeyPool))])
 	case 2:
@@ -85,7 +87,11 @@ func c12KeyExpr(r *rt.Rand) *gen.Node {
 }
 
 func c12ValExpr(r *rt.Rand) (*gen.Node, bool) {
-	switch r.Intn(9) {
+	switch r.Intn(11) {
+	case 9:
+		return gen.Call("len", gen.Call("split", gen.Key(), gen.Str([]string{"a", "k", "1"}[r.Intn(3)]))), true
+	case 10:
+		return gen.Call("len", gen.Call("list", gen.Int(1), gen.Int(2), gen.Int(3))), false
 	case 0:
 		return gen.Str([]string{"v1", "", "x,y", "it is"}[r.Intn(4)]), false
 	case 1:
